@@ -484,6 +484,9 @@ def run(P, R, L):
     K.pair9_boundary_inputs(P, R, L)
     K.pair9_levels(P, R, L)
     K.bundle_no_assertion_trips(P, R, L)
+    # a blocking flock turns "already open elsewhere" from an error into an open / destroy that never returns
+    from .c17 import grd9
+    grd9(P, R, L)
     R.not_decided += ["that the background thread never panics (value-level reachability of unwrap/assert/index sites)",
                       "progress of data-dependent loops", "channel capacity / blocking send in schedule_task"]
     R.assumptions += ["one Mutex<GuardedDbFields> instance per database (class-level = instance-level)",
